@@ -1,7 +1,7 @@
 (** C07 — the foreign API can only add funds, exactly once per slate.
     Statements only (proofs: theories/LedgerProofs.v). The foreign API is
     receive_tx, build_coinbase, finalize_tx (check_version has no effect). *)
-From GW Require Import Ledger LedgerProofs.
+From GW Require Import Ledger LedgerProofs ForeignProofs.
 
 (** receive_tx with ANY slate (amount, ttl, destination, valid or invalid signature data):
     every existing output record is unchanged, no context is consumed; on success exactly one
@@ -59,6 +59,30 @@ Theorem C07_invalid_reply_no_effect : forall w slate ttl tip so c,
 Proof. exact finalize_invalid_reply_no_effect. Qed.
 Print Assumptions C07_invalid_reply_no_effect.
 
+(** History level. For ANY sequence of foreign requests — receive_tx with any slate,
+    build_coinbase with any fees / height / caller-named key, finalize_tx and the invoice
+    finalisation with replies whose signature data does not verify — from any wallet state
+    satisfying the key invariant and holding no late-locked context (the known finding): every
+    existing output record that is not a coinbase candidate is exactly as it was, no stored
+    context is consumed or altered, and every record counted as spendable stays counted. *)
+Theorem C07_any_foreign_sequence_only_adds : forall ops w,
+  Fresh w -> NoLate w -> forallb foreign_op ops = true ->
+  (forall k m r, get_out (w_outs w) k m = Some r -> candb r = false ->
+     get_out (w_outs (run w ops)) k m = Some r)
+  /\ w_ctxs (run w ops) = w_ctxs w
+  /\ w_confh (run w ops) = w_confh w /\ w_active (run w ops) = w_active w.
+Proof. exact foreign_history. Qed.
+Print Assumptions C07_any_foreign_sequence_only_adds.
+
+Theorem C07_spendable_never_decreases : forall ops w k m r,
+  Fresh w -> NoLate w -> forallb foreign_op ops = true ->
+  get_out (w_outs w) k m = Some r ->
+  bucket_of r (lookup (w_confh w) (w_active w)) 1 = BSpendable ->
+  get_out (w_outs (run w ops)) k m = Some r
+  /\ bucket_of r (lookup (w_confh (run w ops)) (w_active (run w ops))) 1 = BSpendable.
+Proof. exact foreign_history_keeps_spendable. Qed.
+Print Assumptions C07_spendable_never_decreases.
+
 Theorem C07_late_lock_refuted : exists w slate ttl tip,
   is_ok (snd (finalize w slate ttl tip true false)) = false
   /\ exists k m o o', get_out (w_outs w) k m = Some o /\ r_status o = Unspent
@@ -66,3 +90,18 @@ Theorem C07_late_lock_refuted : exists w slate ttl tip,
        /\ r_status o' = Locked.
 Proof. exact late_lock_reserves_before_verifying. Qed.
 Print Assumptions C07_late_lock_refuted.
+
+(** non-vacuity: a wallet with one spendable coinbase and one pending send; the foreign
+    sequence (a receive, a coinbase naming an existing non-candidate key, a forged reply for the
+    pending send, a replayed receive) leaves the coin and the context as they were. *)
+Example C07_foreign_sequence_example :
+  let pres := [((0, 0), None, 1)] in
+  let p := mkParams 1000000000 false 6 1 500 1 false 0 in
+  let w := run empty_wallet [OpCoinbase 0 1 None; OpRefresh 0 true 6 pres []; OpInitSend 5 None p false] in
+  let ops := [OpReceive 9 77 0 None true; OpCoinbase 5 7 (Some (0, 0)); OpFinalize 5 0 6 true false;
+              OpReceive 9 77 0 None true] in
+  forallb foreign_op ops = true
+  /\ option_map r_status (get_out (w_outs w) (0, 0) None) = Some Unspent
+  /\ get_out (w_outs (run w ops)) (0, 0) None = get_out (w_outs w) (0, 0) None
+  /\ w_ctxs (run w ops) = w_ctxs w /\ w_ctxs w <> [].
+Proof. vm_compute. repeat split; try reflexivity. discriminate. Qed.
